@@ -1,6 +1,7 @@
 package dom
 
 import (
+	"errors"
 	"encoding/json"
 	"net/url"
 	"os"
@@ -29,7 +30,21 @@ type legacyT struct {
 	C json.RawMessage `json:"c,omitempty"`
 }
 
+// legacyView is the Map callback of the `rbm` configuration: it hides `b` and `c` and adds a marker
+func legacyView(v interface{}) (interface{}, error) {
+	t, ok := v.(legacyT)
+	if !ok {
+		return nil, errors.New("map: unexpected type")
+	}
+	out := map[string]interface{}{"view": true}
+	if t.A != nil {
+		out["a"] = t.A
+	}
+	return out, nil
+}
+
 type legacyDom struct {
+	mapped  bool
 	idxs    *resbadger.IndexSet
 	dir     string
 	db      *badger.DB
@@ -95,10 +110,10 @@ func (d *legacyDom) Gen(r *gen.R, tier string, emit func(string)) {
 		}
 		pkg := r.Pick([]string{"mw", "rb"})
 		if model && r.Chance(1, 3) {
-			pkg = r.Pick([]string{"rbi", "rbi", "rbe"}) // resbadger, typed model with an index set (+ query collection) / an empty index set
+			pkg = r.Pick([]string{"rbi", "rbi", "rbe", "rbm"}) // rbm: with a Map callback (the get response is a view; Value() is the stored value); resbadger, typed model with an index set (+ query collection) / an empty index set
 		}
 		cfg := []string{"cfg", pkg, typ}
-		if pkg != "rbi" && pkg != "rbe" && r.Chance(1, 3) {
+		if pkg != "rbi" && pkg != "rbe" && pkg != "rbm" && r.Chance(1, 3) {
 			cfg = append(append(cfg, "D"), genVal()...)
 		} else {
 			cfg = append(cfg, "N")
@@ -220,6 +235,7 @@ func (d *legacyDom) start() error {
 	d.db = db
 	a := d.cfgArgs
 	d.model = a[2] == "model"
+	d.mapped = false
 	var def interface{}
 	if a[3] == "D" {
 		def = d.parseVal(a[4:])
@@ -251,6 +267,10 @@ func (d *legacyDom) start() error {
 	} else if a[1] == "rbe" {
 		// resbadger typed model with an index set that has no index
 		opt = resbadger.BadgerDB{DB: db}.Model().WithType(legacyT{}).WithIndexSet(&resbadger.IndexSet{})
+	} else if a[1] == "rbm" {
+		// typed model with a Map callback: get responses show the view, Value() the stored value
+		d.mapped = true
+		opt = resbadger.BadgerDB{DB: db}.Model().WithType(legacyT{}).WithIndexSet(&resbadger.IndexSet{}).WithMap(legacyView)
 	} else if a[1] == "rbi" {
 		keyOf := func(field string) func(interface{}) []byte {
 			return func(v interface{}) []byte {
@@ -500,7 +520,7 @@ func (d *legacyDom) Exec(a []string) string {
 				out = renderAny(rr.Result.Collection)
 			}
 			// Value() must give the same (through a With callback; typed values are rendered via JSON)
-			val := "value-not-called"
+			val, valJSON := "value-not-called", ""
 			done := make(chan struct{})
 			if d.run.S.With("svc.r", func(r res.Resource) {
 				defer close(done)
@@ -515,9 +535,28 @@ func (d *legacyDom) Exec(a []string) string {
 					return
 				}
 				b, _ := json.Marshal(v)
+				valJSON = string(b)
+				if _, typed := v.(legacyT); d.mapped && !typed {
+					val = "value-is-not-the-stored-type"
+					return
+				}
 				val = renderAny(json.RawMessage(b))
 			}) == nil {
 				<-done
+			}
+			if d.mapped {
+				// the get response is the Map view of the stored value; the operation's outcome is the stored value
+				if val == "value-err" || val == "value-panic" || val == "value-not-called" {
+					return out + " BUT-Value()=" + val
+				}
+				var t legacyT
+				json.Unmarshal([]byte(valJSON), &t)
+				view, _ := legacyView(t)
+				vb, _ := json.Marshal(view)
+				if want := renderAny(json.RawMessage(vb)); want != out {
+					return val + " BUT-get=" + out + " instead-of-the-view=" + want
+				}
+				return val
 			}
 			if val != out {
 				return out + " BUT-Value()=" + val
